@@ -30,6 +30,8 @@ WORKLOADS = {
     "sched_trampoline": ("w_sched.cpp", ()),
     "timer_thread": ("w_timer.cpp", ()),
     "timer_unsafe": ("w_timer.cpp", ()),
+    "mutex_v1": ("w_mutex.cpp", ()),
+    "mutex_v2": ("w_mutex.cpp", ()),
 }
 
 PROPS = {
@@ -94,5 +96,25 @@ PROPS = {
         real=["timed_single_thread_context (+cancel_callback)", "thread_unsafe_event_loop (+sync_wait driver)", "inplace_stop_source",
               "libstdc++ std::condition_variable::wait_until / this_thread::sleep_until wrappers"],
         stub=["clock_gettime/nanosleep/pthread_cond_clockwait on the simulated clock", "pthread mutex/cond/create/join (usim)", "heap (usim arena)"],
+    ),
+    "C15": dict(
+        title="async_mutex: mutual exclusion, no lost waiter, clean cancellation",
+        batches=[
+            B("w_mutex.cpp", "mutex_v2", quick=12, thorough=180, oracles=["c15."] + RT_ALL),
+            B("w_mutex.cpp", "mutex_v1", quick=6, thorough=90, oracles=["c15."] + RT_ALL),
+            B("w_mutex.cpp", "mutex_v2", cfg="S20r", quick=5, thorough=60, oracles=["c15."] + RT_ALL),
+        ],
+        level_text=("Seeded exploration over the real v1 and v2 async_mutex: 2-5 lockers on their own threads run 1-4 rounds of async_lock / "
+                    "try_lock, a critical section and unlock; v2 waiters complete on an inline scheduler, a shared single_thread_context or one "
+                    "context per locker and may be cancelled before start or by a racing stopper thread (before enqueue, while queued, already "
+                    "popped). Oracles: at most one holder at every acquisition, every started uncancelled lock completes exactly once (deadlock = "
+                    "lost waiter), a cancelled waiter never holds and the lock is free once everybody unlocked (try_lock succeeds), v2 grants in "
+                    "queue order under the non-overlap rule, completion on the waiter's scheduler, operation states freed right after completion "
+                    "(shadow memory)."),
+        level_note=("Trusted: usim stubs; sequential consistency only, so the Dekker fences of the v2 mutex are not stressed beyond SC. C++20 "
+                    "debug and C++20 NDEBUG configurations (v2 needs C++20)."),
+        real=["unifex::v1::async_mutex + atomic_intrusive_queue", "unifex::v2::async_mutex + atomic_intrusive_list + cancellable + completion_forwarder",
+              "manual_event_loop/single_thread_context, inline_scheduler", "inplace_stop_source"],
+        stub=["pthread layer, heap (usim)"],
     ),
 }
